@@ -50,6 +50,11 @@ def gen_case(rng, cid, dev2_ok, scratch, small=False, large=False):
         depth = rng.below(4)
         dirs = [rng.choice(["d0", "d1"]) for _ in range(depth)]
         name = rng.choice(["k", "x", "f"]) + str(j) + rng.choice([".a", ".b", ""])
+        if rng.chance(1, 6):
+            # a name that is not valid UTF-8 (%FF = the raw byte 0xFF, decoded by the harness): the name patterns see it lossily
+            # converted (U+FFFD), which `*`, `?` and the literal parts around it still match
+            k = rng.below(len(name) + 1)
+            name = name[:k] + "%FF" + name[k:]
         return "/".join([r] + dirs + [name])
 
     def times():
@@ -370,6 +375,7 @@ def examine(ctx, cases, results, model_out, scratch, count=True):
             ctx.distinct(json.dumps({k: v for k, v in case.items() if k != "id"}, sort_keys=True), nontriv)
             ctx.bump("members", len(case["members"]) if len(case["members"]) <= 12 else "24-40")
             ctx.bump("op", case["op"])
+            ctx.bump("non_utf8_names", min(3, sum(1 for m in case["members"] if "%FF" in m["path"])))
             ctx.bump("n", case["n"])
             ctx.bump("priority_list_len", len(case["prio"]))
             for p in case["prio"]:
